@@ -412,7 +412,8 @@ fn check_dict_only<H: AsRef<[usize]> + SelectZeroUnchecked>(c: &mut Case, ef: &E
                 &have,
                 xs,
                 d,
-                |q| Some(unsafe { if strict { ef.succ_unchecked::<true>(q) } else { ef.succ_unchecked::<false>(q) } }),
+                // (odd queries go through the forwarding implementation for `&T`)
+                |q| Some(if q % 2 == 1 { if strict { succ_u_by_ref::<_, true>(ef, q) } else { succ_u_by_ref::<_, false>(ef, q) } } else { unsafe { if strict { ef.succ_unchecked::<true>(q) } else { ef.succ_unchecked::<false>(q) } } }),
                 |q, g| {
                     let w = model_succ(xs, q, strict);
                     if pair_ok(xs, *g, w) {
@@ -429,7 +430,7 @@ fn check_dict_only<H: AsRef<[usize]> + SelectZeroUnchecked>(c: &mut Case, ef: &E
                 &have,
                 xs,
                 d,
-                |q| Some(unsafe { if strict { ef.pred_unchecked::<true>(q) } else { ef.pred_unchecked::<false>(q) } }),
+                |q| Some(if q % 2 == 1 { if strict { pred_u_by_ref::<_, true>(ef, q) } else { pred_u_by_ref::<_, false>(ef, q) } } else { unsafe { if strict { ef.pred_unchecked::<true>(q) } else { ef.pred_unchecked::<false>(q) } } }),
                 |q, g| {
                     let w = model_pred(xs, q, strict);
                     if pair_ok(xs, *g, w) {
@@ -657,6 +658,15 @@ fn main() {
 /// All value queries through a dictionary type chosen by the caller: with
 /// `D = &EliasFano<..>` this goes through the `impl ... for &T` forwarding layer.
 #[allow(clippy::type_complexity)]
+/// The unchecked queries through a generic function instantiated with `D = &EliasFano<..>`
+/// (only callers inside the documented preconditions use these).
+fn succ_u_by_ref<D: sux::traits::SuccUnchecked<Input = usize, Output = usize>, const STRICT: bool>(d: D, q: usize) -> (usize, usize) {
+    unsafe { d.succ_unchecked::<STRICT>(q) }
+}
+fn pred_u_by_ref<D: sux::traits::PredUnchecked<Input = usize, Output = usize>, const STRICT: bool>(d: D, q: usize) -> (usize, usize) {
+    unsafe { d.pred_unchecked::<STRICT>(q) }
+}
+
 fn all_ops_generic<D>(d: D, q: usize) -> (Option<(usize, usize)>, Option<(usize, usize)>, Option<(usize, usize)>, Option<(usize, usize)>, Option<usize>, bool)
 where
     D: Succ + Pred + IndexedDict + sux::traits::Types<Input = usize, Output = usize>,
